@@ -149,6 +149,8 @@ class Compiler:
             return self.expr(x['e'])
         if isinstance(x, dict) and x.get('k') == 'ref' and x.get('d') in self.refs:
             return self.var(x)
+        if isinstance(x, dict) and x.get('k') == 'mem' and isinstance(x.get('b'), dict) and 'c' not in x:
+            return '_mr(%s, %r)' % (self.expr(x['b']), x.get('n'))
         return None
 
     @staticmethod
@@ -318,7 +320,7 @@ class Compiler:
             if len(out) == body_start:
                 out.append(ind + 'pass')
         src = '\n'.join(out)
-        env = {'_h': self.hooks, '_s': _s, '_div': _div, '_mod': _mod, '_cp': _cp, '_mem': _mem, '_sc': _sc, '_rd': _rd}
+        env = {'_h': self.hooks, '_s': _s, '_div': _div, '_mod': _mod, '_cp': _cp, '_mem': _mem, '_sc': _sc, '_rd': _rd, '_mr': _MemRef}
         try:
             exec(src, env)
         except SyntaxError as e:
@@ -341,6 +343,23 @@ def _sc(v, w):
     if not -(1 << (w - 1)) <= v < (1 << (w - 1)):
         raise SignedOverflow('%d does not fit a signed %d-bit result' % (v, w))
     return v
+
+
+class _MemRef:
+    """assignable view of a field of a modelled object (dict or attribute holder)"""
+    __slots__ = ('o', 'n')
+
+    def __init__(self, o, n):
+        self.o, self.n = o, n
+
+    def get(self):
+        return self.o[self.n] if isinstance(self.o, dict) else getattr(self.o, self.n)
+
+    def set(self, v):
+        if isinstance(self.o, dict):
+            self.o[self.n] = v
+        else:
+            setattr(self.o, self.n, v)
 
 
 def _rd(o):
